@@ -14,7 +14,50 @@ from ..model import AnchorMissing, Unrecognised, calls_in, unparse
 from ..paths import enumerate_paths
 from ..vn import NONE, VN, State, cond_text
 
-SCALARS = {"area", "dt", "gmax", "dgdt", "ramppts", "newgmax", "nflat", "triareamax", "a", "pts"}
+# parameters of the two designers (API names); local names never matter below
+SCALARS = {"area", "dt", "gmax", "dgdt"}
+
+REF_SPOKES = """
+n_spokes = k.shape[0]
+area = tbw / (sl_thick / 10) / 4257
+[subgz, nramp] = min_trap_grad(area, gmax, dgdtmax, gts)
+gxarea = np.diff(np.concatenate((k[:, 0], np.zeros(1)))) / 4257
+gyarea = np.diff(np.concatenate((k[:, 1], np.zeros(1)))) / 4257
+for ii in range(n_spokes):
+    if np.absolute(gxarea[ii]) > 0:
+        [gblip, _] = trap_grad(abs(gxarea[ii]), gmax, dgdtmax, gts)
+    if np.absolute(gyarea[ii]) > 0:
+        [gblip, _] = trap_grad(abs(gyarea[ii]), gmax, dgdtmax, gts)
+[gref, _] = trap_grad(gts * np.sum(subgz) / 2, gmax, dgdtmax, gts)
+"""
+
+
+def _infeasible(p, f):
+    """a syntactic path that cannot end in a return: it branches against the constant just assigned to the tested variable, or it tests
+    a local that no statement on the path has assigned (UnboundLocalError at run time)"""
+    params = set(a.lstrip("*") for a in f.all_params)
+    const = {}
+    assigned = set(params)
+    for kind, n in p.events:
+        if kind == "stmt":
+            if isinstance(n, ast.Assign):
+                for t in n.targets:
+                    for x in ast.walk(t):
+                        if isinstance(x, ast.Name):
+                            assigned.add(x.id)
+                            const.pop(x.id, None)
+                    if isinstance(t, ast.Name) and isinstance(n.value, ast.Constant):
+                        const[t.id] = n.value.value
+            elif isinstance(n, (ast.AugAssign, ast.AnnAssign)) and isinstance(n.target, ast.Name):
+                assigned.add(n.target.id)
+                const.pop(n.target.id, None)
+        elif kind in ("true", "false") and isinstance(getattr(n, "test", None), ast.Name):
+            v = n.test.id
+            if v in const and bool(const[v]) != (kind == "true"):
+                return True
+            if v not in assigned:
+                return True
+    return False
 
 
 def check(run, M, tier):
@@ -33,8 +76,8 @@ def check(run, M, tier):
             decisions = {unparse(n.test): k for k, n in p.events if k in ("true", "false")}
             if decisions.get("np.abs(area) > 0") != "true":
                 continue
-            if name == "trap_grad" and decisions.get("rampsamp") == "false":
-                continue  # rampsamp is always 1 on the public path (len(args) < 5); the other arm is dead code (np.ones(1, float) is a type error)
+            if _infeasible(p, f):
+                continue  # e.g. trap_grad's ramp-sampling flag is the constant 1 whenever it is bound; the other arm cannot be reached with a return
             n_pos += 1
             ep = Endpoints(M, f)
             ep.run_block(p.stmts())
@@ -50,45 +93,61 @@ def check(run, M, tier):
         outs = [o for o in vn.run(f.body, State()) if o.status == "return"]
         area, dt = T.sym("area", real=True), T.sym("dt", real=True)
         n_area = 0
+        local_syms = {x.id for x in ast.walk(f.node) if isinstance(x, ast.Name) and isinstance(x.ctx, ast.Store)} - set(f.params)
         for o in outs:
             ctext = cond_text(o.conds)
-            if not any(T.show(c, 200).startswith("pos(abs(area))") or T.show(c, 200) == "pos(abs(area))" for c in o.conds):
+            if not any(T.show(c, 200) == "pos(abs(area))" for c in o.conds):
+                continue
+            # a path whose condition mentions a local as a free symbol read that local before any assignment (UnboundLocalError): not a returning path
+            if any(T.symbols(c) & local_syms for c in o.conds):
+                continue
+            wave = o.ret[0] if isinstance(o.ret, tuple) and o.ret else None   # np.expand_dims(w, axis=0) is w for the term algebra
+            if not isinstance(wave, T.Poly):
                 continue
             if name == "trap_grad":
-                if any(T.show(c, 100) in ("not(rampsamp)", "zero(rampsamp)") for c in o.conds):
-                    continue
-                trap = o.env.get("trap")
-                if not isinstance(trap, T.Poly):
-                    continue
-                if "ramp" in T.show(o.env.get("flat"), 50) if o.env.get("flat") is not None else False:
-                    pass
-                if o.env.get("pulse") is None:
-                    continue
                 n_area += 1
-                tot = T.mul(vn.lin_sum(trap), dt)
-                run.check(T.eq(tot, area), "Z2", "trap_grad area[%s]" % ctext[:60], f.loc(), "sum(trap)*dt == area",
-                          "trap_grad: on the path [%s] sum(trap)*dt normalises to %s, not to the requested area" % (ctext[:120], T.show(tot, 200)), stmt="Z2:trap:" + ctext[:80])
+                tot = T.mul(vn.lin_sum(wave), dt)
+                run.check(T.eq(tot, area), "Z2", "trap_grad area[%s]" % ctext[:60], f.loc(), "sum(returned waveform)*dt == area",
+                          "trap_grad: on the path [%s] sum(waveform)*dt normalises to %s, not to the requested area" % (ctext[:120], T.show(tot, 200)), stmt="Z2:trap:" + ctext[:80])
             else:
-                flat = o.env.get("flat")
-                trap = o.env.get("trap")
-                if not isinstance(flat, T.Poly):
-                    continue
+                a = wave.single_atom()
+                pieces = T.dec(a[2][0]) if a is not None and a[0] == "app" and a[1] == "call:numpy.concatenate" else None
+                okm = isinstance(pieces, tuple) and len(pieces) == 3 and isinstance(pieces[1], T.Poly)
+                run.check(okm, "Z2", "min_trap_grad flat top[%s]" % ctext[:60], f.loc(), "the waveform is concatenate(ramp_up, flat, ramp_dn)",
+                          "min_trap_grad: the returned waveform is %s; expected concatenate(ramp_up, flat, ramp_dn)" % T.show(wave, 200), stmt="Z2:mid:" + ctext[:80])
                 n_area += 1
-                tot = T.mul(vn.lin_sum(flat), dt)
-                run.check(T.eq(tot, area), "Z2", "min_trap_grad flat area[%s]" % ctext[:60], f.loc(), "sum(flat)*dt == area",
-                          "min_trap_grad: on the path [%s] sum(flat)*dt normalises to %s, not to the requested area" % (ctext[:120], T.show(tot, 200)), stmt="Z2:flat:" + ctext[:80])
-                a = trap.single_atom() if isinstance(trap, T.Poly) else None
-                okm = a is not None and a[1] == "call:numpy.concatenate" and isinstance(T.dec(a[2][0]), tuple) and len(T.dec(a[2][0])) == 3 and T.dec(a[2][0])[1] == flat
-                run.check(okm, "Z2", "min_trap_grad flat top[%s]" % ctext[:60], f.loc(), "the flat top is the middle piece between the two ramps",
-                          "min_trap_grad: the returned waveform is %s; expected concatenate(ramp_up, flat, ramp_dn)" % T.show(trap, 200), stmt="Z2:mid:" + ctext[:80])
+                if not okm:
+                    continue
+                tot = T.mul(vn.lin_sum(pieces[1]), dt)
+                run.check(T.eq(tot, area), "Z2", "min_trap_grad flat area[%s]" % ctext[:60], f.loc(), "sum(flat top)*dt == area",
+                          "min_trap_grad: on the path [%s] sum(flat top)*dt normalises to %s, not to the requested area" % (ctext[:120], T.show(tot, 200)), stmt="Z2:flat:" + ctext[:80])
         run.floor("Z2-" + name, 2, n_area, "area identities of " + name)
     # ---- Z3 spokes
     f = M.func("sigpy.mri.rf.trajgrad.spokes_grad")
-    cs = [(c.func.id, [unparse(a) for a in c.args]) for c in calls_in(f.node) if isinstance(c.func, ast.Name) and c.func.id in ("min_trap_grad", "trap_grad")]
-    want = [("min_trap_grad", ["area", "gmax", "dgdtmax", "gts"]), ("trap_grad", ["abs(gxarea[ii])", "gmax", "dgdtmax", "gts"]),
-            ("trap_grad", ["abs(gyarea[ii])", "gmax", "dgdtmax", "gts"]), ("trap_grad", ["gts * np.sum(subgz) / 2", "gmax", "dgdtmax", "gts"])]
-    run.check(sorted(cs) == sorted(want), "Z3", "spokes_grad pieces", f.loc(), "slice-select lobes from min_trap_grad, blips and refocusing lobe from trap_grad with the hardware limits forwarded",
-              "spokes_grad builds its pieces with %s" % cs, stmt="Z3:pieces")
+    from ..vn import iter_once_loop
+
+    def calls_of(stmts):
+
+        def h(vn_, call, st):
+            if isinstance(call.func, ast.Name) and call.func.id in ("min_trap_grad", "trap_grad"):
+                tgt = M.func("sigpy.mri.rf.trajgrad." + call.func.id)
+                b_ = M.bind(call, tgt)
+                terms = {p_: vn_._as_term(vn_.ev(n_, st)) for p_, n_ in b_.items() if not isinstance(n_, (list, dict))}
+                key = (call.func.id,) + tuple(sorted((p_, repr(T.enc(t_))) for p_, t_ in terms.items()))
+                got[key] = call.func.id + "(" + ", ".join("%s=%s" % (p_, T.show(t_, 90)) for p_, t_ in sorted(terms.items())) + ")"
+                return None
+            return None
+        got = {}
+        VN(M, f, call_hook=h, loop_hook=iter_once_loop).run(stmts, State())
+        return got
+    try:
+        cs = calls_of([s_ for s_ in f.body if not isinstance(s_, ast.Return)])
+    except Unrecognised:
+        cs = None
+    want = calls_of(ast.parse(REF_SPOKES).body)
+    run.check(cs is not None and sorted(cs) == sorted(want), "Z3", "spokes_grad pieces", f.loc(), "slice-select lobes from min_trap_grad(tbw/(sl_thick/10)/4257), blips trap_grad(|diff(k)/4257|) and the refocusing lobe "
+              "trap_grad(gts*sum(subgz)/2), hardware limits forwarded",
+              "spokes_grad designs its pieces with %s ; documented %s" % (sorted((cs or {}).values()), sorted(want.values())), stmt="Z3:pieces")
     ctl = ast.parse("import numpy as np\ndef ctl(n):\n    r = np.linspace(1, n, num=n) / n\n    return np.concatenate((r, r))\n")
     import copy
     from ..model import Mod
